@@ -10,7 +10,10 @@ impl ActTask for Branch {
         let task = ctx.task();
         task.set_emit_disabled(true);
         if !self.needs.is_empty() {
-            task.set_state(TaskState::Pending);
+            // only wait when the needed sibling is not finished yet
+            if !task.is_ready() {
+                task.set_state(TaskState::Pending);
+            }
             return Ok(());
         }
 
@@ -34,7 +37,9 @@ impl ActTask for Branch {
                     return Ok(());
                 }
 
-                if branch_count > 1 {
+                // only wait when the siblings are not decided yet
+                // (is_ready marks the branch as skipped when a sibling is taken)
+                if branch_count > 1 && !task.is_ready() && !task.state().is_completed() {
                     task.set_state(TaskState::Pending);
                 }
 
